@@ -350,7 +350,7 @@ def check_C15(world, hist, pred):
             out.extend(check_json(world, hist, pred, idx, text, outp, shown_order))
         elif name == "plain" and outp:
             out.extend(check_plain(world, hist, pred, idx, text, outp, logs))
-        elif name in ("progress2", "progress3") and outp:
+        elif name in ("progress", "progress2") and outp:
             out.extend(check_progress(world, hist, pred, idx, text, outp, logs, name))
     return out
 
@@ -528,23 +528,56 @@ def check_plain(world, hist, pred, idx, text, outp, logs):
     return out
 
 
+DOTS = {"passed": ".", "failed": "F", "error": "E", "hook_error": "H", "skipped": "S", "untested": "_",
+        "untested_pending": "p", "untested_undefined": "u", "undefined": "U", "pending": "P", "pending_warn": "p"}
+
+
 def check_progress(world, hist, pred, idx, text, outp, logs, name):
+    """progress: one mark per shown scenario; progress2: one mark per processed step (per feature line)."""
     out = []
     if text is None or not logs or pred.dead or world["cfg"].get("continue_after_failed"):
         return out
-    # progress3 prints one char per processed step after each scenario name; we count status marks
-    marks = {"passed": ".", "failed": "F", "error": "E", "skipped": "S", "untested": "_",
-             "undefined": "U", "hook_error": "H", "pending": "P", "pending_warn": "p",
-             "untested_undefined": "U", "untested_pending": "P"}
-    want = 0
-    for sid, nm, res in _results_by_scenario(logs):
-        node = idx.get(sid)
-        if node is None:
+    if name not in ("progress", "progress2"):
+        return out
+    # shown features / scenarios in order (from the recorder), marks expected from the census
+    want = []       # (filename, marks)
+    cur = None
+    for e in logs[0]:
+        if e["cb"] == "feature":
+            node = idx.get(e["id"])
+            cur = [node["filename"] if node else None, ""]
+            want.append(cur)
+        elif e["cb"] == "scenario" and cur is not None:
+            sid = e["id"]
+            node = idx.get(sid)
+            if node is None or pred.scen.get(sid, {}).get("attempts", 1) > 1:
+                return out
+            if name == "progress":
+                cur[1] += DOTS.get(node["status"], "?")
+            else:
+                proc = processed_steps(world, hist, pred, sid, node)
+                if proc is None:
+                    return out
+                for i in proc:
+                    cur[1] += DOTS.get(node["steps"][i]["status"], "?")
+    got = {}
+    for line in text.split("\n"):
+        m = re.match(r"^(features/\S+\.feature)  (\S*)\s*$", line)
+        if m:
+            got[m.group(1)] = m.group(2)
+    for fn, marks in want:
+        if fn is None:
             continue
-        proc = processed_steps(world, hist, pred, sid, node)
-        if proc is None or pred.scen.get(sid, {}).get("attempts", 1) > 1:
-            return out
-        want += len(proc)
+        g = got.get(fn)
+        if g is None:
+            if marks:
+                out.append(V("C15", "progress-steps", "%s:feature-line-missing" % name, file=outp, feature=fn))
+                break
+            continue
+        if g != marks:
+            out.append(V("C15", "progress-steps", "%s:marks-differ" % name, file=outp, feature=fn,
+                         printed=g, model=marks))
+            break
     return out
 
 
